@@ -9,19 +9,20 @@ import (
 	"path/filepath"
 	"sort"
 	"strings"
+	"sync"
 	"time"
 
 	"golang.org/x/tools/go/ssa"
 )
 
 type unitRun struct {
-	Unit     string
-	Fc       *FuncContract
-	G        *Gen
-	Results  []*Result
-	Err      error
-	GenMs    int64
-	SolveMs  int64
+	Unit    string
+	Fc      *FuncContract
+	G       *Gen
+	Results []*Result
+	Err     error
+	GenMs   int64
+	SolveMs int64
 }
 
 var dumpOnly bool
@@ -29,15 +30,15 @@ var verifRoot = "/verif"
 
 func main() {
 	var (
-		repo    = flag.String("repo", "/repo", "repository root")
-		verif   = flag.String("verif", "/verif", "verification root")
-		prop    = flag.String("prop", "", "property id")
-		tier    = flag.String("tier", "quick", "quick|thorough")
-		unitF   = flag.String("unit", "", "only units containing this substring")
-		keep    = flag.Bool("keep", false, "keep SMT files")
-		verbose = flag.Bool("v", false, "verbose")
-		list    = flag.Bool("list", false, "list units")
-		noEvid  = flag.Bool("no-evidence", false, "do not write evidence")
+		repo     = flag.String("repo", "/repo", "repository root")
+		verif    = flag.String("verif", "/verif", "verification root")
+		prop     = flag.String("prop", "", "property id")
+		tier     = flag.String("tier", "quick", "quick|thorough")
+		unitF    = flag.String("unit", "", "only units containing this substring")
+		keep     = flag.Bool("keep", false, "keep SMT files")
+		verbose  = flag.Bool("v", false, "verbose")
+		list     = flag.Bool("list", false, "list units")
+		noEvid   = flag.Bool("no-evidence", false, "do not write evidence")
 		overlayF = flag.String("overlay", "", "JSON file {path: replacement-file} applied as build overlay (mutant testing)")
 	)
 	flag.BoolVar(&dumpOnly, "dump", false, "only write the SMT files (implies -keep)")
@@ -141,60 +142,74 @@ func main() {
 func runLemmas(prop, verif string, quickT, slowT int, verbose bool) []*unitRun {
 	files, _ := filepath.Glob(filepath.Join(verif, "lemmas", prop, "*.smt2"))
 	sort.Strings(files)
-	var res []*unitRun
-	for _, f := range files {
+	res := make([]*unitRun, len(files))
+	var wg sync.WaitGroup
+	for fi, f := range files {
 		data, err := os.ReadFile(f)
 		if err != nil {
 			continue
 		}
-		name := strings.TrimSuffix(filepath.Base(f), ".smt2")
-		solverLine := "cvc5 --strings-exp"
-		about := ""
-		for _, l := range strings.Split(string(data), "\n") {
-			l = strings.TrimSpace(l)
-			if strings.HasPrefix(l, "; solver:") {
-				solverLine = strings.TrimSpace(strings.TrimPrefix(l, "; solver:"))
+		wg.Add(1)
+		go func(fi int, f string, data []byte) {
+			defer wg.Done()
+			name := strings.TrimSuffix(filepath.Base(f), ".smt2")
+			solverLine := "cvc5 --strings-exp"
+			about := ""
+			for _, l := range strings.Split(string(data), "\n") {
+				l = strings.TrimSpace(l)
+				if strings.HasPrefix(l, "; solver:") {
+					solverLine = strings.TrimSpace(strings.TrimPrefix(l, "; solver:"))
+				}
+				if strings.HasPrefix(l, "; about:") {
+					about = strings.TrimSpace(strings.TrimPrefix(l, "; about:"))
+				}
 			}
-			if strings.HasPrefix(l, "; about:") {
-				about = strings.TrimSpace(strings.TrimPrefix(l, "; about:"))
+			ob := &Oblig{Unit: ".:lemma:" + name, Name: "lemma", Kind: "lemma", Desc: about, Contractual: true, Props: []string{prop}}
+			args := strings.Fields(solverLine)
+			t0 := time.Now()
+			// string lemmas take 5-15 s on an idle machine: a generous limit keeps a loaded machine from turning a
+			// proof into `unknown` (which would be reported as a violation)
+			timeout := slowT * 6
+			if args[0] == "cvc5" {
+				args = append(args, fmt.Sprintf("--tlimit=%d", timeout*1000))
+			} else {
+				args = append(args, fmt.Sprintf("-T:%d", timeout))
 			}
-		}
-		ob := &Oblig{Unit: ".:lemma:" + name, Name: "lemma", Kind: "lemma", Desc: about, Contractual: true, Props: []string{prop}}
-		args := strings.Fields(solverLine)
-		t0 := time.Now()
-		timeout := slowT
-		if args[0] == "cvc5" {
-			args = append(args, fmt.Sprintf("--tlimit=%d", timeout*1000))
-		} else {
-			args = append(args, fmt.Sprintf("-T:%d", timeout))
-		}
-		args = append(args, f)
-		out, _ := exec.Command(args[0], args[1:]...).CombinedOutput()
-		first := ""
-		for _, l := range strings.Split(string(out), "\n") {
-			if l = strings.TrimSpace(l); l != "" && !strings.HasPrefix(l, "WARNING") {
-				first = l
-				break
+			args = append(args, f)
+			out, _ := exec.Command(args[0], args[1:]...).CombinedOutput()
+			first := ""
+			for _, l := range strings.Split(string(out), "\n") {
+				if l = strings.TrimSpace(l); l != "" && !strings.HasPrefix(l, "WARNING") {
+					first = l
+					break
+				}
 			}
-		}
-		r := &Result{Ob: ob, Backend: args[0], Ms: time.Since(t0).Milliseconds(), Output: string(out), File: f}
-		switch first {
-		case "unsat":
-			r.Status = "proved"
-		case "sat":
-			r.Status = "refuted"
-			r.Model = map[string]string{"solver_model": truncate(string(out), 1500)}
-		default:
-			r.Status = "unknown"
-		}
-		if verbose {
-			fmt.Fprintf(os.Stderr, "  %-9s %-8s %6dms  %s\n", r.Status, r.Backend, r.Ms, ob.Unit)
-		}
-		u := &unitRun{Unit: ob.Unit, Fc: &FuncContract{Name: "lemma:" + name, Props: []string{prop}}, G: &Gen{}, Results: []*Result{r}}
-		u.G.assumptions = []string{"lemma " + name + " is stated over SMT-LIB strings; its premises (the key layouts) are what the contracts on the code prove; the correspondence is by reading"}
-		res = append(res, u)
+			r := &Result{Ob: ob, Backend: args[0], Ms: time.Since(t0).Milliseconds(), Output: string(out), File: f}
+			switch first {
+			case "unsat":
+				r.Status = "proved"
+			case "sat":
+				r.Status = "refuted"
+				r.Model = map[string]string{"solver_model": truncate(string(out), 1500)}
+			default:
+				r.Status = "unknown"
+			}
+			if verbose {
+				fmt.Fprintf(os.Stderr, "  %-9s %-8s %6dms  %s\n", r.Status, r.Backend, r.Ms, ob.Unit)
+			}
+			u := &unitRun{Unit: ob.Unit, Fc: &FuncContract{Name: "lemma:" + name, Props: []string{prop}}, G: &Gen{}, Results: []*Result{r}}
+			u.G.assumptions = []string{"lemma " + name + " is stated over SMT-LIB strings; its premises (the key layouts) are what the contracts on the code prove; the correspondence is by reading"}
+			res[fi] = u
+		}(fi, f, data)
 	}
-	return res
+	wg.Wait()
+	var out []*unitRun
+	for _, u := range res {
+		if u != nil {
+			out = append(out, u)
+		}
+	}
+	return out
 }
 
 func contains(xs []string, x string) bool {
